@@ -90,8 +90,11 @@ def _case(draw, kinds=tuple(KINDS)):
         # differentiation inputs: leaves requiring grad and intermediate nodes, mutually independent, not outputs
         cands = [("l", i) for i, lf in enumerate(prog["leaves"]) if lf["rg"]]
         out_ids = {_node_id(tuple(r)) for r in prog["outputs"]}
+        # (a quarter of the cases also allow a tensor that is itself one of the differentiated outputs: its own block is the
+        # identity, plus whatever the other outputs contribute through it)
+        also_outputs = bool(rng.integers(0, 4) == 0)
         for ref in shapes:
-            if ref[0] == "n" and P.requires_grad(prog, ref) and _node_id(ref) not in out_ids:
+            if ref[0] == "n" and P.requires_grad(prog, ref) and (also_outputs or _node_id(ref) not in out_ids):
                 cands.append(ref)
         order = [cands[i] for i in rng.permutation(len(cands))]
         want = int(rng.integers(1, 5))
@@ -123,6 +126,7 @@ def _case(draw, kinds=tuple(KINDS)):
         if kind in ("aggregate",):
             case["rows"] = int(rng.integers(1, 5))
             case["order"] = rng.permutation(nk).tolist()
+            case["views"] = bool(rng.integers(0, 2))
         if kind == "select":
             case["picked"] = [bool(rng.integers(0, 2)) for _ in range(nk)]
     return case
@@ -190,6 +194,8 @@ def _diff_case(case, out):
         return
     if cuts:
         out.cls("intermediate-input")
+    if any(tuple(r) in [tuple(o) for o in prog["outputs"]] for r in inputs):
+        out.cls("input-is-also-an-output")
     g = P.TorchGraph(prog)
     outs = [g.get(r) for r in prog["outputs"]]
     ins = [g.get(r) for r in inputs]
@@ -390,6 +396,18 @@ def _dict_case(case, out):
     rows = case["rows"]
     order = [keys[i] for i in case["order"]]
     jacs = _shuffled(rng, {kk: _vals(rng, [rows] + s, case["real"], tdt) for kk, s in zip(keys, shapes)})
+    if case.get("views"):
+        # the per-key Jacobians are column views of ONE 2-d tensor (as Jac produces them), laid out in the order in which
+        # the keys were created - which is not the key order given to Aggregate
+        base = torch.cat([jacs[kk].reshape(rows, -1) for kk in keys], dim=1).clone()
+        off, viewed = 0, {}
+        for kk, s in zip(keys, shapes):
+            k_ = kk.numel()
+            col = base[:, off : off + k_]
+            viewed[kk] = col.unflatten(1, s) if len(s) else col[:, 0]
+            off += k_
+        jacs = _shuffled(rng, viewed)
+        out.cls("aggregate:jacobians-are-views-of-one-matrix")
     inner = PositionCoding() if rng.integers(0, 2) else jdcheck.aggs.make({"name": "Constant", "weights": (rng.integers(-3, 4, size=rows) + 0.5).tolist()}, dtype)
     rec = Recording(inner)
     res = out.call("raises:Aggregate", Aggregate(rec, order), Jacobians(jacs))
